@@ -466,6 +466,90 @@ func c09gen(c *h.Ctx, yield func(*h.Case)) {
 			"c09 send sendto 0 1")
 	}
 
+	// the receive loop against peers that are sockets driven frame by frame (c09recv.go): frames that
+	// decode and frames that do not, oversized headers, closing between and inside frames, resets,
+	// silence; several connections per peer (the swap-with-last removal, entry by entry); set-ups
+	// given up before the identity is through
+	emitTo("corpus", "corpus-recvloop", "c09 open tcp 0,2", "c09 handler 10", "c09 handler 11", "c09 rawconn 1 id", "c09 rawconn 1 id", "c09 rawconn 1 id",
+		"c09 rawconn 3 id", "c09 rawev 1 0 gxg", "c09 rawev 1 0 c", "c09 rawev 1 2 gb", "c09 rawconn 1 id", "c09 rawev 1 1 q", "c09 rawev 3 0 xxp",
+		"c09 rawev 1 3 ggxgr", "c09 rawconn 1 noid", "c09 rawconn 1 halfid", "c09 rawconn 1 wrongtype", "c09 conns 1", "c09 send router 2 1", "c09 send router 1 1")
+	{
+		// handleError on every error value that can be built from the features it looks at
+		ops := []string{"c09 herr 0001100", "c09 herr 0001000", "c09 herr 1111111", "c09 herr 00000", "c09 herr 000000x"}
+		for m := 0; m < 64; m++ {
+			ops = append(ops, fmt.Sprintf("c09 herr %d%d%d0%d%d%d", m>>5&1, m>>4&1, m>>3&1, m>>2&1, m>>1&1, m&1))
+		}
+		emitTo("corpus", "corpus-handle-error", ops...)
+	}
+	evAlphabet := "ggggxxbcpqr"
+	for i := 0; i < c.Pick(22, 260); i++ {
+		ops := []string{"c09 open tcp 0,2"}
+		for j := r.Intn(3); j > 0; j-- {
+			ops = append(ops, fmt.Sprintf("c09 handler %d", 10+len(ops)))
+		}
+		open := map[int][]int{} // raw peer -> serial numbers of its open connections
+		next := map[int]int{}
+		peers := []int{1, 3, 4}[:1+r.Intn(3)]
+		for j := 0; j < 6+r.Intn(10); j++ {
+			p := peers[r.Intn(len(peers))]
+			switch x := r.Intn(10); {
+			case x < 3 || len(open[p]) == 0:
+				how := "id"
+				if r.Intn(5) == 0 {
+					how = []string{"noid", "halfid", "wrongtype"}[r.Intn(3)]
+				}
+				ops = append(ops, fmt.Sprintf("c09 rawconn %d %s", p, how))
+				if how == "id" {
+					open[p] = append(open[p], next[p])
+					next[p]++
+				}
+			case x < 9:
+				k := r.Intn(len(open[p]))
+				var ev []byte
+				ended := false
+				for n := 1 + r.Intn(6); n > 0; n-- {
+					e := evAlphabet[r.Intn(len(evAlphabet))]
+					ev = append(ev, e)
+					if !strings.ContainsRune("gx", rune(e)) {
+						ended = true
+						if r.Intn(3) > 0 {
+							break // sometimes events follow the one that ends the connection: they are not sent
+						}
+					}
+				}
+				ops = append(ops, fmt.Sprintf("c09 rawev %d %d %s", p, open[p][k], ev))
+				if ended {
+					open[p] = append(open[p][:k], open[p][k+1:]...)
+				}
+			default:
+				if r.Intn(2) == 0 {
+					ops = append(ops, fmt.Sprintf("c09 conns %d", p))
+				} else {
+					ops = append(ops, "c09 send router 2 1") // healthy traffic goes on
+				}
+			}
+		}
+		for _, p := range peers {
+			if len(open[p]) == 0 && r.Intn(2) == 0 {
+				ops = append(ops, fmt.Sprintf("c09 send router %d 1", p)) // nothing listens at a raw peer's address
+				break
+			}
+		}
+		emit("recvloop-tcp", ops...)
+	}
+	// ... and a peer that goes silent: the (scaled) read time-out ends the loop
+	for i := 0; i < c.Pick(3, 24); i++ {
+		ops := []string{"c09 open tcp 0", "c09 handler 10"}
+		if r.Intn(2) == 0 {
+			ops = append(ops, "c09 handler 11")
+		}
+		ops = append(ops, "c09 rawconn 1 id", "c09 rawev 1 0 "+[]string{"t", "gt", "gxgt", "xt", "ggt"}[r.Intn(5)], "c09 conns 1")
+		if r.Intn(2) == 0 {
+			ops = append(ops, "c09 rawconn 1 id", "c09 rawev 1 1 gc")
+		}
+		emit("recvloop-timeout-tcp", ops...)
+	}
+
 	var all []c09pending
 	for _, q := range order {
 		for i, cs := range queues[q] {
@@ -498,6 +582,17 @@ func c09gen(c *h.Ctx, yield func(*h.Case)) {
 			}
 			if f[1] == "tsend" && len(f) > 3 {
 				c.Count("entry=tni-" + f[3])
+			}
+			if f[1] == "rawconn" && len(f) > 3 {
+				c.Count("rawconn=" + f[3])
+			}
+			if f[1] == "rawev" && len(f) > 4 {
+				for _, e := range f[4] {
+					c.Count("event=" + string(e))
+					if !strings.ContainsRune("gx", e) {
+						break
+					}
+				}
 			}
 		}
 		yield(p.cs)
